@@ -6,6 +6,7 @@ import (
 	"os"
 	"sort"
 	"strconv"
+	"strings"
 
 	apierrors "k8s.io/apimachinery/pkg/api/errors"
 	metav1 "k8s.io/apimachinery/pkg/apis/meta/v1"
@@ -67,16 +68,16 @@ type Step struct {
 
 // Scenario is a complete generated case.
 type Scenario struct {
-	Prop  string `json:"prop"`
-	Note  string `json:"note,omitempty"`
-	Force bool   `json:"forceAdoption,omitempty"`
+	Prop  string    `json:"prop"`
+	Note  string    `json:"note,omitempty"`
+	Force bool      `json:"forceAdoption,omitempty"`
 	Tmpls []SetSpec `json:"tmpls,omitempty"` // deployment template pool
 	Pkgs  []PkgDesc `json:"pkgs,omitempty"`  // package image pool: image i is built from Pkgs[i]
 	// Lag: ObjectSets created since the last "sync" step are invisible to the ObjectDeployment controller's reads
 	Lag bool `json:"lag,omitempty"`
 	// GracefulWidgets: Widgets are deleted gracefully (stay terminating without finalizers until the "kubelet" step)
-	GracefulWidgets bool `json:"gracefulWidgets,omitempty"`
-	Steps []Step `json:"steps"`
+	GracefulWidgets bool   `json:"gracefulWidgets,omitempty"`
+	Steps           []Step `json:"steps"`
 }
 
 // SetInfo remembers a created ObjectSet.
@@ -110,7 +111,7 @@ type Runner struct {
 	faultNCall int
 	// armed in-pass injection: before the injN-th pool write of the next pass, act on that very key
 	injN, injKind int
-	injCount     int
+	injCount      int
 	// armed owner edit: before call number ownerInjN of the next pass the user toggles the owner's pause state
 	ownerInjN int
 	// armed in-pass cache sync: before call number syncInjN of the next pass the lagging reader catches up
@@ -121,8 +122,8 @@ type Runner struct {
 	Log []string
 	// MaxQuiesceRounds bounds quiesce.
 	MaxQuiesceRounds int
-	Views []*PassView
-	KeepViews bool
+	Views            []*PassView
+	KeepViews        bool
 	// LastQuiesceOK: the last quiesce step reached a fixpoint
 	LastQuiesceOK bool
 	// EnvIdx is the index of the current environment variant; pullsBefore snapshots pull counters at pass start
@@ -638,7 +639,7 @@ func (r *Runner) Reconcile(ctrlName string, key kubesim.Key) (*PassView, error) 
 	r.faultKind = kubesim.FaultNone
 	r.injN, r.injCount, r.ownerInjN, r.syncInjN = 0, 0, 0, 0
 	if p.Panic != nil {
-		return nil, Violf("C19", "panic-in-reconcile:"+ctrlName, "controller %s panicked: %v", ctrlName, p.Panic)
+		return nil, Violf("C19", "panic:"+panicKey(p.PanicStack), "controller %s panicked: %v\n%s", ctrlName, p.Panic, trunc(p.PanicStack, 1800))
 	}
 	pv := r.buildView(p)
 	if r.Sc.Lag {
@@ -1247,4 +1248,20 @@ func (r *Runner) Kubelet() {
 			}
 		}
 	}
+}
+
+// panicKey extracts the first frame inside package-operator.run from a panic's stack as identity.
+func panicKey(stack string) string {
+	lines := strings.Split(stack, "\n")
+	for i, l := range lines {
+		if strings.HasPrefix(l, "package-operator.run/") && !strings.Contains(l, "verifharness") && i+1 < len(lines) {
+			fn := l
+			if j := strings.Index(fn, "("); j > 0 {
+				fn = fn[:j]
+			}
+			fn = strings.TrimPrefix(fn, "package-operator.run/")
+			return fn
+		}
+	}
+	return "unknown-frame"
 }
